@@ -1,21 +1,34 @@
+def _guard(name, fn, facts, cg):
+    """a rule module that throws on an unforeseen shape of the code must not take the whole check down with a traceback (no verdict
+    at all) - and must not pass either: it is reported as a finding of its own, 'cannot decide', under every property it serves"""
+    try:
+        return fn(facts, cg)
+    except Exception as e:       # noqa
+        import traceback
+        tb = traceback.format_exc().strip().splitlines()
+        where = next((l.strip() for l in reversed(tb) if l.strip().startswith('File ')), '')
+        return [], [{'rule': 'R-ENGINE', 'key': 'R-ENGINE|%s|crash:%s' % (name, type(e).__name__), 'function': '-',
+                     'what': 'the rule module %s could not analyse this tree (%s: %s at %s): cannot decide' % (name, type(e).__name__, str(e)[:120], where[:160])}]
+
+
 def run(facts, cg):
     from . import r_openflags, r_storage, r_pairing, r_err, r_tables, r_wire, r_readers, r_untrusted, r_dictwiring, r_trunc, r_misc, r_chunker, r_readerwiring, r_accept, r_cliprogress
     out = {}
-    out['r_openflags'] = r_openflags.run(facts, cg)
-    out['r_storage'] = r_storage.run(facts, cg)
-    out['r_pairing'] = r_pairing.run(facts, cg)
-    out['r_err'] = r_err.run(facts, cg)
-    out['r_tables'] = r_tables.run(facts, cg)
-    out['r_wire'] = r_wire.run(facts, cg)
-    out['r_readers'] = r_readers.run(facts, cg)
-    out['r_untrusted'] = r_untrusted.run(facts, cg)
-    out['r_dictwiring'] = r_dictwiring.run(facts, cg)
-    out['r_trunc'] = r_trunc.run(facts, cg)
-    out['r_misc'] = r_misc.run(facts, cg)
-    out['r_chunker'] = r_chunker.run(facts, cg)
-    out['r_readerwiring'] = r_readerwiring.run(facts, cg)
-    out['r_accept'] = r_accept.run(facts, cg)
-    out['r_cliprogress'] = r_cliprogress.run(facts, cg)
-    out['r_cliflags'] = r_openflags.run_cliflags(facts, cg)
-    out['r_err_fatal'] = r_err.run_fatal(facts, cg)
+    out['r_openflags'] = _guard('r_openflags', r_openflags.run, facts, cg)
+    out['r_storage'] = _guard('r_storage', r_storage.run, facts, cg)
+    out['r_pairing'] = _guard('r_pairing', r_pairing.run, facts, cg)
+    out['r_err'] = _guard('r_err', r_err.run, facts, cg)
+    out['r_tables'] = _guard('r_tables', r_tables.run, facts, cg)
+    out['r_wire'] = _guard('r_wire', r_wire.run, facts, cg)
+    out['r_readers'] = _guard('r_readers', r_readers.run, facts, cg)
+    out['r_untrusted'] = _guard('r_untrusted', r_untrusted.run, facts, cg)
+    out['r_dictwiring'] = _guard('r_dictwiring', r_dictwiring.run, facts, cg)
+    out['r_trunc'] = _guard('r_trunc', r_trunc.run, facts, cg)
+    out['r_misc'] = _guard('r_misc', r_misc.run, facts, cg)
+    out['r_chunker'] = _guard('r_chunker', r_chunker.run, facts, cg)
+    out['r_readerwiring'] = _guard('r_readerwiring', r_readerwiring.run, facts, cg)
+    out['r_accept'] = _guard('r_accept', r_accept.run, facts, cg)
+    out['r_cliprogress'] = _guard('r_cliprogress', r_cliprogress.run, facts, cg)
+    out['r_cliflags'] = _guard('r_cliflags', r_openflags.run_cliflags, facts, cg)
+    out['r_err_fatal'] = _guard('r_err_fatal', r_err.run_fatal, facts, cg)
     return out
